@@ -266,10 +266,14 @@ func verifC26Instant(r *verifutil.Rand, zone string) int64 {
 }
 
 func verifC26Tloc(r *verifutil.Rand) string {
-	if r.Chance(3, 4) {
+	switch r.Intn(10) {
+	case 0, 1, 2, 3, 4:
 		return "L"
+	case 5, 6, 7: // fixed offsets inside (-1h, +1h) and at the extremes: sign / hour / minute splitting
+		return fmt.Sprint([]int{-2700, -1800, -900, 1800, -60, -43200, 50400, 900, 2700, -3540, 60}[r.Intn(11)])
+	default:
+		return fmt.Sprint([]int{0, 3600, -3600, 19800, 20700, -12600, 45900, 50400, -43200, 3599, -1, 60, 86340, -86340, -1800, -2700}[r.Intn(16)])
 	}
-	return fmt.Sprint([]int{0, 3600, -3600, 19800, 20700, -12600, 45900, 50400, -43200, 3599, -1, 60, 86340, -86340}[r.Intn(14)])
 }
 
 func verifC26Oracle(t time.Time) string {
